@@ -3,16 +3,19 @@ OBLS = []
 INC = ['spec/urlspec.h', 'spec/scan.h']
 
 
-def both(name, props, harness, note, quick_timeout=300, thorough_timeout=1500, bufn=64, **kw):
+def both(name, props, harness, note, quick_timeout=300, thorough_timeout=1500, bufn=64, unbounded=True, **kw):
     """register a scanner obligation twice: bounded-buffer (quick, graded B) and unbounded (thorough, graded Pinf)"""
     OBLS.append(Obl(name + '/b%d' % bufn, props, 'B(%d)' % bufn, harness, bufn=bufn, bound='view length <= %d bytes (loop contracts inductive; object size fixed)' % bufn,
                     timeout=quick_timeout, tier='quick', note=note, **kw))
-    OBLS.append(Obl(name, props, 'Pinf', harness, timeout=thorough_timeout, tier='thorough', solver='kissat', note=note + ' -- any length', **kw))
+    if unbounded:
+        OBLS.append(Obl(name, props, 'Pinf', harness, timeout=thorough_timeout, tier='thorough', solver='kissat', note=note + ' -- any length', **kw))
 
 
 for fn in ('find_next_host_delimiter', 'find_next_host_delimiter_special'):
     both('C01.%s.first@sse2' % fn, ['C01', 'C18', 'C02'], 'auto', roots=[fn],
          specs={fn: fn + '.spec'}, enforce=fn, loop_contracts=True, defines=['FN=' + fn], includes=INC,
+         # the symbolic-size (any length) variant of the _special kernel needs a 3.5 GB CNF and more than the 14 GB memory limit: not registered
+         unbounded=(fn == 'find_next_host_delimiter'),
          note='returns the least index >= location holding a host delimiter, else size; SSE2 kernel incl. overlapping tail reload')
 
 PINC = INC + ['spec/pathspec.h']
